@@ -29,8 +29,8 @@ CLAIMED = {
  'C09': dict(
    text='Symbolic execution of the 2D overload of World::properties with the 3D overload replaced by a recording stub returning uninterpreted values: for every cross-section origin/direction, 2D point, depth and request list '
         'up to the bound the 3D query is issued once, at the documented point (Cartesian: origin + x*direction at height z; spherical: the natural point at angle atan2(z,x), radius sqrt(x^2+z^2) pushed through the coordinate system), '
-        'with depth and list unchanged; velocity blocks are projected at their true offsets and every other slot is returned unchanged; a world without cross section throws.',
-   note=TB + 'exact-real reading with sqrt/atan2/sin/cos uninterpreted under contract axioms; the unit direction vector computed from JSON in parse_entries is a symbolic input (outside).',
+        'with depth and list unchanged; velocity blocks are projected at their true offsets and every other slot is returned unchanged; a world without cross section throws. C09.dir runs the real World constructor and World::parse_entries (Parameters API stubbed) and proves that a declared cross section makes the world 2D, is stored as declared (degrees to radians when spherical) and that the stored section direction is the unit vector from the first towards the second point.',
+   note=TB + 'exact-real reading with sqrt/atan2/sin/cos uninterpreted under contract axioms; in C09.map the origin and direction are arbitrary symbolic members; what parse_entries stores there is C09.dir (JSON reading itself outside).',
    technique='symbolic execution of clang LLVM IR + z3 (QF_NRA+UF), callee replaced by a recording stub, bounded request length', design='4/C09'),
  'C02': dict(
    text='Symbolic execution of the real ContinentalPlate/OceanicPlate/MantleLayer::properties and of World::properties\' fold over features: with the extent predicates replaced by arbitrary Booleans/values and models by '
@@ -63,10 +63,10 @@ CLAIMED = {
  'C07': dict(
    text='Bounding boxes: every point within the closed box is accepted (all finite doubles bit-precisely for the default tolerance, and over the reals for any tolerance >= 0), the spherical wrapper is the disjunction over the two longitude aliases, extend() moves both corners. '
         'Slab/fault pre-filter (depth cut-off and buffered bounding box): under the planar-construction contract on the kernel result (a member lies at most d_along+|d_perp| below min depth and sideways of its trench foot) no point satisfying the membership definition is discarded, for every table within the bound. The real parse_entries() of both features (driven through the Parameters stub) is proved to establish the invariant that lemma assumes: the stored maxima dominate both ends of every segment and every total length, and the Cartesian bounding box contains the coordinates extended by thickness + length. The min/max pre-test before depth surfaces is covered by C11.bound.',
-   note=TB + 'the spherical buffer (2*pi*buffer/radius, 1/cos(lat) scaling) is NOT covered - its adequacy is a geometric heuristic, not an invariant; section overrides in parse_entries and curved trenches are outside.',
+   note=TB + 'the spherical buffer (2*pi*buffer/radius, 1/cos(lat) scaling) is NOT covered - its adequacy is a geometric heuristic, not an invariant; curved trenches are outside. Section overrides in parse_entries are covered by C07.bounds.sections (same invariant re-proved with 1-2 overrides).',
    technique='symbolic execution of clang LLVM IR + z3 (FP bit-precise for the box, QF_NRA for the culling lemma with an environment contract)', design='4/C07'),
  'C10': dict(
-   text='Interpolation half only: with kernel and per-segment models stubbed, every interpolated quantity of SubductingPlate/Fault::properties (thickness, top truncation, length handed to the models, temperature, composition, velocity) is proved equal to a + f(b-a) with a, b taken from sections cur and cur+1 only, hence convex for f in [0,1], equal to a section\'s own value at its coordinate, and independent of every other section.',
+   text='Interpolation half only: with kernel and per-segment models stubbed, every interpolated quantity of SubductingPlate/Fault::properties (thickness, top truncation, length handed to the models, temperature, composition, velocity) is proved equal to a + f(b-a) with a, b taken from sections cur and cur+1 only, hence convex for f in [0,1], equal to a section\'s own value at its coordinate, and independent of every other section. C10.sections proves on the real parse_entries of both features that every coordinate carries the segment values of its own section entry and the default list otherwise.',
    note=TB + 'NOT covered: inheritance of models from feature/section level to segments (implemented by copying JSON sub-trees in parameters.cc with rapidjson pointers and std::string paths - not encodable here); quaternion slerp of grain rotations.',
    technique='symbolic execution of clang LLVM IR + z3 (QF_NRA), 3 sections x 1-2 segments, stub models', design='4/C10'),
  'C11': dict(
@@ -80,7 +80,7 @@ CLAIMED = {
    note=TB + 'NOT covered: closest point on the Bezier curve (Newton search) and the Cartesian<->spherical round trip (inverse trigonometric identities) - no installed solver decides them; coordinates bounded by 1e8; exact-real reading.',
    technique='symbolic execution of clang LLVM IR + z3 (QF_NRA with uninterpreted sqrt/sin/cos/acos under contract axioms), brute-force definition as oracle', design='4/C19'),
  'C12': dict(
-   text='Narrowed scope (byte/JSON-level parsing is not encodable, see level_note): the validation units that sit behind the JSON layer are driven symbolically - the real parse_entries() of the plume, the gaussian plume temperature, the uniform composition/raw-velocity models, the uniform grains models of the three area families (Euler-angle and rotation-matrix paths), the oceanic half-space model, the spherical coordinate system and the free-form string options of the water-content and mass-conserving models, fed by a stub of the Parameters API delivering lists of every length combination within the bound and arbitrary values, '
+   text='Narrowed scope (byte/JSON-level parsing is not encodable, see level_note): the validation units that sit behind the JSON layer are driven symbolically - the real parse_entries() of the plume, the gaussian plume temperature, the uniform composition/raw-velocity models, the uniform grains models of the three area families (Euler-angle and rotation-matrix paths), the oceanic half-space model, the section overrides of slab and fault (arbitrary 32-bit coordinate numbers, segment counts), the spherical coordinate system and the free-form string options of the water-content and mass-conserving models, fed by a stub of the Parameters API delivering lists of every length combination within the bound and arbitrary values, '
         'followed by one query with every memory access checked: the outcome must be an exception or a memory-safe, initialised evaluation, inconsistent list lengths must be rejected, and every accepted option string must leave a defined state.',
    note=TB + 'NOT covered: "all byte strings / all JSON documents", schema validation, formatting variants (rapidjson, schema validator and std::string/iostream code cannot be encoded with the installed tools; that layer is fuzzing territory). The stub respects the schema\'s own array-size limits. One known finding (spreading-velocity list length) is listed in known_findings.jsonl.',
    technique='symbolic execution of clang LLVM IR + z3 with a nondeterministic stub of the JSON layer; memory safety checked by the executor on every path', design='4/C12'),
@@ -107,8 +107,8 @@ CLAIMED = {
  'C15': dict(
    text='With randomness modelled as an arbitrary value of its contract (uniform_real_distribution<double>::operator() specialised to a fresh u in [0,1) scaled to [a,b)), the real random-uniform-distribution grains models of the continental, oceanic and mantle-layer families (1-2 listed compositions with arbitrary labels) and the continental random composition model, built through their real parse_entries, are executed symbolically: '
         'every generated orientation satisfies R R^T = I and det R = +1 (polynomial identities over the reals with sin/cos/sqrt uninterpreted under sin^2+cos^2=1 and sqrt contracts, Ackermannised for z3\'s nlsat), normalised sizes sum to one, fixed sizes are returned as given, random compositions lie in [min,max), '
-        'the number and order of draws depends only on model state and request, and the only pre-existing state the model touches is the engine - hence with a deterministic engine the answer is a function of file, seed and query history.',
-   note=TB + 'NOT covered: the Mersenne Twister itself (seeding, "different seeds give different draws": inverting MT19937 is not a bounded query), seeding in World (JSON), the deflected variant and the other feature families (same code pattern, not instantiated), all-zero size draws (probability zero).',
+        'the number and order of draws depends only on model state and request, and the only pre-existing state the model touches is the engine - hence with a deterministic engine the answer is a function of file, seed and query history. C15.seed runs the real World constructor and parse_entries (Parameters API stubbed) with the mt19937 seeding of libstdc++ executed symbolically: for all 2^64 constructor seeds and all 2^32 file entries the 624-word engine state equals mt19937(file seed) when the entry is non-negative and mt19937(constructor seed) otherwise, and its first word is the seed (different seeds, different engines).',
+   note=TB + 'NOT covered: the Mersenne Twister output stream beyond its seeding (that different engine states give different draws is a property of MT19937, not a bounded query), MPI ranks other than 0, the deflected variant and the other feature families (same code pattern, not instantiated), all-zero size draws (probability zero).',
    technique='symbolic execution of clang LLVM IR + z3 (QF_NRA after Ackermannisation of uninterpreted libm), randomness as a nondeterministic contract stub', design='4/C15'),
 }
 NA_DEFAULT = 'check not built yet (work in progress; see DESIGN.md section 4 for the planned obligations)'
